@@ -52,6 +52,7 @@ def build_case(item):
     g = TermGen(rng, spaces=spaces, spin=spin, n_tensors=(2, 3),
                 max_contracted=4 if kind == "general" else 5,
                 exponents=0.15 if kind == "expo" else 0.0,
+                deltas=(1, 2) if kind == "delta" else (0, 0),
                 names=names, exclude=("v",) if kind == "denom" else ("D", "v"))
     explicit = rng.random() < 0.5 or kind in ("repeat",)
     T = _targets(rng, spaces, 3 if kind == "general" else 4, spin)
@@ -169,7 +170,7 @@ def main():
     run = Run("C07", a.tier, "translation_validation")
     n = 640 if a.tier == "quick" else 6000
     TIMEOUT = 20000 if a.tier == "quick" else 120000
-    kinds = ["plain", "plain", "general", "expo", "repeat", "spin", "denom", "plain"]
+    kinds = ["plain", "delta", "general", "expo", "repeat", "spin", "denom", "plain"]
     base = seed() * 1000003
     items = [(kinds[k % len(kinds)], base + k) for k in range(n)]
     results = pmap(run_case, items, limit=120 if a.tier == "quick" else 600)
